@@ -2,7 +2,7 @@
 
 use std::collections::BTreeMap;
 
-use e5_harness::*;
+use crate::harness::*;
 
 use crate::corpus::*;
 
